@@ -105,6 +105,20 @@ def main(p):
                 alt.append(m)
             yield '/'.join(assign) or 'none', kwargs, exp, alt, Dreq
 
+    def mixed_requests(cell, Dreq, k):
+        """The `request` of a mixed call in its four guises: empty message, empty dict, non-empty dict, non-empty message.
+        Single-parameter cells get all four, the others rotate."""
+        some = Dreq()
+        if cell['dep']:
+            some.name = 'nn'
+            d = {'name': 'nn'}
+        else:
+            some.untouched = 'uu'
+            d = {'untouched': 'uu'}
+        forms = [('empty-message', lambda: request_object(cell, Dreq())), ('empty-dict', lambda: {}), ('dict', lambda: dict(d)),
+                 ('message', lambda: request_object(cell, some))]
+        return forms if len(cell['kinds']) == 1 else [forms[k % 4]]
+
     def request_object(cell, exp):
         if cell['dep']:
             return other.FlatRequest.FromString(exp.SerializeToString())
@@ -163,11 +177,11 @@ def main(p):
                     judge(cell, 'sync', label, 'request', list(ch.log), exp, alt, Dreq)
                 except BaseException as e:
                     fail(cell, 'sync', label, 'request-exception', probelib.exc_info(e))
-                if kwargs:
+                for fname, mk in (mixed_requests(cell, Dreq, out['assignments']) if kwargs else ()):
                     ch.log.clear(); ch.script = [reply]
                     try:
-                        meth(request=request_object(cell, Dreq()), **kwargs)
-                        fail(cell, 'sync', label, 'mixed-accepted', f'request + {sorted(kwargs)} did not raise; {len(ch.log)} calls sent')
+                        meth(request=mk(), **kwargs)
+                        fail(cell, 'sync', label, 'mixed-accepted', f'request ({fname}) + {sorted(kwargs)} did not raise; {len(ch.log)} calls sent')
                     except ValueError:
                         if ch.log:
                             fail(cell, 'sync', label, 'mixed-sent', 'ValueError raised after a call was sent')
@@ -208,11 +222,11 @@ def main(p):
                     judge(cell, 'asyncio', label, 'request', list(ch.log), exp, alt, Dreq)
                 except BaseException as e:
                     fail(cell, 'asyncio', label, 'request-exception', probelib.exc_info(e))
-                if kwargs:
+                for fname, mk in (mixed_requests(cell, Dreq, out['assignments']) if kwargs else ()):
                     ch.log.clear(); ch.script = [reply]
                     try:
-                        await meth(request=request_object(cell, Dreq()), **kwargs)
-                        fail(cell, 'asyncio', label, 'mixed-accepted', f'request + {sorted(kwargs)} did not raise; {len(ch.log)} calls sent')
+                        await meth(request=mk(), **kwargs)
+                        fail(cell, 'asyncio', label, 'mixed-accepted', f'request ({fname}) + {sorted(kwargs)} did not raise; {len(ch.log)} calls sent')
                     except ValueError:
                         if ch.log:
                             fail(cell, 'asyncio', label, 'mixed-sent', 'ValueError raised after a call was sent')
